@@ -30,11 +30,11 @@ def meta(tier):
         'rule': ('generated structured programs (C01/C06 generators) and the seven shipped .bare scripts, each re-laid-out by seeded '
                  'rewrites: LF vs CRLF; one string vs chunk lists/tuples/generators (all chunkings with up to 6 cuts for short texts, '
                  'sampled otherwise); blank/comment insertion with p=0.3 per line including inside continued lines; indentation from '
-                 '{none, spaces, tab}; trailing blanks/tabs; a continuation backslash at any blank outside string literals, bracket '
-                 'names and <system urls>. Each rewrite must parse to the canonical model; parse A, parse B, parse A again must give A. '
+                 '{none, spaces, tab}; trailing blanks/tabs; a continuation backslash between ANY two adjacent tokens (strings, bracket '
+                 'names and <system urls> are single tokens). Each rewrite must parse to the canonical model; parse A, parse B, parse A again must give A. '
                  'Non-trivial: the rewrite differs from the canonical text and the text has >= 3 lines; distinct = distinct rewritten text.'),
         'exhaustive': False,
-        'assumptions': ['a blank outside string literals / bracket names / <urls> is a place where a space is allowed'],
+        'assumptions': ['a space is allowed between any two adjacent tokens of a valid line (string literals, [bracket names] and <system urls> are single tokens)'],
     }
 
 
@@ -43,33 +43,34 @@ def _api():
     return parse_script, parse_expression, BareScriptParserError
 
 
-def safe_gaps(line):
-    """Indices of blanks outside string literals, [bracket names] and <urls>, excluding the leading indentation."""
+_TOKEN = re.compile(r"""\s+|'(?:\\.|[^'\\])*'|"(?:\\.|[^"\\])*"|\[(?:\\\]|[^\]])*\]|\.\.\.|\*\*|<=|>=|==|!=|&&|\|\||\d+(?:\.\d*)?(?:e[+-]\d+)?|[A-Za-z_]\w*|.""")
+_INCLUDE_SYS = re.compile(r'^(\s*include\s+)(<[^>]*>)(\s*)$')
+
+
+def tokens_of(line):
+    """(start, end) of every non-blank token of a line: strings, [bracket names], <system urls>, numbers, names,
+    multi-character operators, single characters. A space is allowed between any two adjacent tokens."""
+    m = _INCLUDE_SYS.match(line)
+    if m:
+        a = len(m.group(1)) - len(m.group(1).lstrip())
+        return [(a, a + len('include')), (m.start(2), m.end(2))]
     out = []
-    i = len(line) - len(line.lstrip())
-    n = len(line)
-    q = None
-    is_include = line.lstrip().startswith('include')
-    while i < n:
-        c = line[i]
-        if q:
-            if c == '\\' and i + 1 < n:
-                i += 2
-                continue
-            if c == q:
-                q = None
-        elif c in '\'"':
-            q = c
-        elif c == '[':
-            q = ']'
-        elif c == '<' and is_include:
-            q = '>'
-        elif c == ' ' and 0 < i < n - 1 and line[i + 1] != ' ' and line[i - 1] != ' ':
-            out.append(i)
-        i += 1
-    if q is not None:
-        return []  # unbalanced quote on this physical line: do not touch it
+    for t in _TOKEN.finditer(line):
+        if not t.group(0).isspace():
+            out.append((t.start(), t.end()))
     return out
+
+
+def safe_gaps(line):
+    """Cut points (index of the token after the cut) where a line may be broken with a continuation backslash: between any
+    two adjacent tokens, whether or not a blank is there now (joining re-inserts a single blank)."""
+    toks = tokens_of(line)
+    if toks and line[toks[-1][0]:toks[-1][1]] == '\\':
+        toks = toks[:-1]  # never cut right before an existing continuation backslash
+    quotes = line.count("'") + line.count('"')
+    if quotes % 2:
+        return []  # unbalanced quote on this physical line: do not touch it
+    return [(toks[i][1], toks[i + 1][0]) for i in range(len(toks) - 1)]
 
 
 def rewrite(text, rnd):
@@ -101,9 +102,9 @@ def rewrite(text, rnd):
             cuts = sorted(rnd.sample(gaps, min(len(gaps), rnd.choice([1, 1, 2, 3]))))
             prev = 0
             parts = []
-            for c in cuts:
-                parts.append(ln2[prev:c])
-                prev = c + 1
+            for end_prev, start_next in cuts:
+                parts.append(ln2[prev:end_prev])
+                prev = start_next
             parts.append(ln2[prev:])
             for k, p in enumerate(parts):
                 last = k == len(parts) - 1
@@ -240,6 +241,20 @@ def run_shard(spec, acc):
                 arg, desc = rewrite(text, random.Random(1))
                 acc.sample({'canonical': text.split('\n')[:12], 'rewrite_kind': desc,
                             'rewritten': (arg if isinstance(arg, str) else '\n'.join(list(arg))).split('\n')[:16]})
+        # no state between calls: texts that differ only INSIDE string literals, parsed in every order, keep their own content
+        lits = [("'a b'", 'a b'), ("'a  b'", 'a  b'), ("'a\tb'", 'a\tb'), ("' '", ' '), ("'\t'", '\t'), ("'  '", '  '), ('"a b"', 'a b'), ('"a   b"', 'a   b')]
+        rnd2 = random.Random(base)
+        for _ in range(30):
+            rnd2.shuffle(lits)
+            for lit, content in lits:
+                e1 = parse_expression(f'len({lit})')
+                m1 = parse_script(f'xx = strip({lit}) + {lit}')
+                got = [e1['function']['args'][0].get('string'), m1['statements'][0]['expr']['expr']['binary']['right'].get('string')]
+                acc.case(('literal-state', lit, _), True)
+                acc.count('determinism_checks')
+                if got != [content, content]:
+                    acc.violation('parser-keeps-state', f'literal {lit!r} parsed as {got!r} after other literals were parsed', {'text': lit})
+                    break
         # expression determinism
         for e in ['a + b * c', 'fn(1, 2) && !x', "'s' + [a b]"]:
             a1 = parse_expression(e)
